@@ -382,7 +382,12 @@ func (m *multiEngine) Replay(rf *ReplayFile) *RunOut {
 
 func engineFor(prop string) Engine {
 	switch prop {
-	case "C01", "C02", "C03", "C04", "C09", "C10", "C11", "C12", "C13":
+	case "C01":
+		// registration histories (Remove / re-Add of single outputs before Build) next to the container runs
+		return &multiEngine{parts: []Engine{&containerEngine{}, &containerEngine{}, &containerEngine{}, &collEngine{}}}
+	case "C10":
+		return &multiEngine{parts: []Engine{&containerEngine{}, &containerEngine{}, &containerEngine{}, &collEngine{}}}
+	case "C02", "C03", "C04", "C09", "C11", "C12", "C13":
 		return &containerEngine{}
 	case "C07", "C08":
 		return &multiEngine{parts: []Engine{&containerEngine{}, &containerEngine{}, &collEngine{}}}
